@@ -290,9 +290,14 @@ Definition opt_assign_value (T : ty) (s : var) (src : ty) (v : Z) : res var :=
      else opt_emplace T s v')
   else assign_temp (oalts T) s (replace 1 v').
 
-(* optional<T>::operator=(optional<U> const&): emplace(value of other) or reset() *)
+(* optional<T>::operator=(optional<U> const&) / (optional<U>&&), after ba039d7:
+   if (!other) reset(); else if (has_value()) **this = *other; else emplace( *other);
+   (the event-level statement - assignment vs destroy + construct - is ModelSm.m_conv_assign) *)
 Definition opt_assign_conv (T U : ty) (s c : var) : res var :=
-  if has_value c then rbind (opt_deref c) (fun v => opt_emplace T s (conv U T v)) else opt_reset T s.
+  if negb (has_value c) then opt_reset T s
+  else if has_value s
+       then rbind (opt_deref c) (fun v => rbind (opt_deref s) (fun _ => Ok {| idx := idx s; val := conv U T v |}))
+       else rbind (opt_deref c) (fun v => opt_emplace T s (conv U T v)).
 
 (* optional<T>(optional<U> const&): starts disengaged, emplace(value of other) when engaged *)
 Definition opt_ctor_conv (T U : ty) (c : var) : res var :=
